@@ -517,3 +517,27 @@ func init() {
 		return u.EscapedPath()
 	}
 }
+
+func init() {
+	// url.Values.Encode: native on concrete pairs (the escaping itself is net/url's contract)
+	intrinsics["(net/url.Values).Encode"] = func(fr *frame, args []value) value {
+		m := args[0].(*omap)
+		vals := url.Values{}
+		if m != nil {
+			for _, e := range m.entries {
+				k, ok := e.key.(string)
+				if !ok {
+					fr.ex().unsupported("url.Values.Encode with a symbolic key")
+				}
+				for _, x := range e.val.([]value) {
+					s, ok := x.(string)
+					if !ok {
+						fr.ex().unsupported("url.Values.Encode with a symbolic value")
+					}
+					vals.Add(k, s)
+				}
+			}
+		}
+		return vals.Encode()
+	}
+}
